@@ -459,7 +459,7 @@ def gen_batch_norm(draw):
     form = draw(st.sampled_from(["fn", "fn", "module"]))
     C = draw(st.integers(1, 3))
     N = draw(st.integers(2, 4))
-    extra = draw(st.sampled_from([[], [], [2], [3], [2, 2], [1, 3]]))
+    extra = draw(st.sampled_from([[], [], [2], [3], [2, 2], [1, 3], [2, 1, 2], [1, 2, 2, 1]]))
     shp = [N, C] + extra
     training = draw(st.booleans())
     stats = draw(st.booleans())
@@ -496,7 +496,7 @@ def apply_batch_norm(ts, args):
     LAST["bn_buffers"] = (rm, rv)
     if args["form"] == "fn":
         return F.batch_norm(x, w, b, rm, rv, args["training"], args["momentum"], args["eps"])
-    cls = nn.BatchNorm2d if x.ndim == 4 else nn.BatchNorm1d
+    cls = nn.BatchNorm2d if x.ndim >= 4 else nn.BatchNorm1d
     m = cls(x.shape[1], eps=args["eps"], momentum=args["momentum"], affine=args["has_w"],
             track_running_stats=args["stats"], dtype=dt.type)
     if args["has_w"]:
@@ -640,3 +640,6 @@ DROPOUT = TOp("dropout", gen_dropout, apply_dropout, None,
               tags=lambda a, s: ["training" if a["training"] else "eval", "p=%g" % a["p"]])
 
 BY_NAME = {o.name: o for o in OPS + [DROPOUT]}
+for _n in ("relu", "leaky_relu", "linear", "conv1d", "conv2d", "max_pool1d", "max_pool2d", "avg_pool1d", "avg_pool2d", "unfold",
+           "fold", "loss_mse", "flatten_layer", "dropout", "batch_norm"):
+    BY_NAME[_n].scales = (1.0, 1.0, 1.0, 128.0, 1.0 / 64)
